@@ -23,6 +23,7 @@ import (
 	"regexp"
 	"strconv"
 	"strings"
+	"time"
 
 	"golang.org/x/tools/go/ssa"
 )
@@ -42,13 +43,56 @@ type escInfo struct {
 var escRe = regexp.MustCompile(`^(.+?\.go):(\d+):(\d+): (.*)$`)
 
 // loadEscapes runs the compiler's escape analysis on the package under test.
+//
+// The go command replays a cached compile's diagnostics from its build cache, and it does so silently
+// best-effort: when the cached copy of that output is unreadable (its data file fails the cache's checksum,
+// e.g. after the machine image was snapshotted before the file's data reached the disk) the build succeeds
+// and prints nothing.  No diagnostics at all is therefore treated as "the cache did not replay", and the
+// build is repeated once with an extra, empty, uniquely named source file in the overlay: that changes the
+// package's build ID, so exactly this package is compiled afresh (its dependencies still come from the
+// cache) and the compiler itself prints the diagnostics.  The cached text is checksummed as a whole, so a
+// replay is either complete or absent, never partial.
 func (g *Engine) loadEscapes() (*escInfo, error) {
+	info, err := g.runEscapes(false)
+	if err == errNoEscapeDiagnostics {
+		if info, err = g.runEscapes(true); err == nil {
+			info.cmd += " [compiled afresh: the build cache did not replay the diagnostics of the cached compile]"
+		}
+	}
+	if err == errNoEscapeDiagnostics {
+		return nil, fmt.Errorf("escape analysis produced no diagnostics, even when compiled afresh (%s)", info.cmd)
+	}
+	return info, err
+}
+
+var errNoEscapeDiagnostics = fmt.Errorf("escape analysis produced no diagnostics")
+
+func (g *Engine) runEscapes(fresh bool) (*escInfo, error) {
+	overlay := map[string]string{}
+	for virt, real := range g.cfg.Overlay {
+		overlay[virt] = real
+	}
+	if fresh {
+		var dir string
+		for file := range g.astFiles {
+			dir = filepath.Dir(file)
+			break
+		}
+		nonce, err := os.CreateTemp("", "gosymx-nonce-*.go")
+		if err != nil {
+			return nil, err
+		}
+		defer os.Remove(nonce.Name())
+		fmt.Fprintf(nonce, "package %s\n\n// %s %d\n", g.pkg.Pkg.Name(), filepath.Base(nonce.Name()), time.Now().UnixNano())
+		nonce.Close()
+		overlay[filepath.Join(dir, "zz_vx_"+strings.ReplaceAll(filepath.Base(nonce.Name()), "-", "_"))] = nonce.Name()
+	}
 	ovf, err := os.CreateTemp("", "gosymx-ov-*.json")
 	if err != nil {
 		return nil, err
 	}
 	defer os.Remove(ovf.Name())
-	json.NewEncoder(ovf).Encode(map[string]any{"Replace": g.cfg.Overlay})
+	json.NewEncoder(ovf).Encode(map[string]any{"Replace": overlay})
 	ovf.Close()
 	args := []string{"build", "-gcflags=-m", "-overlay", ovf.Name(), "-o", os.DevNull}
 	if g.cfg.Tags != "" {
@@ -89,7 +133,7 @@ func (g *Engine) loadEscapes() (*escInfo, error) {
 		}
 	}
 	if info.nmsg == 0 {
-		return nil, fmt.Errorf("escape analysis produced no diagnostics (%s)", info.cmd)
+		return info, errNoEscapeDiagnostics
 	}
 	return info, nil
 }
